@@ -532,9 +532,9 @@ def run(tier, seed):
             cand = [i for i in ids if not any(r["e"]["act"] in ("ReadDS", "WriteDS", "ReadPath") for r in results[i]["trace"])]
             rng.shuffle(cand)
             want = 30 if tier == "quick" else 120
-            for n_, i in enumerate(cand[:want * 2]):
+            for n_, i in enumerate(cand[:want * 5]):             # over-provisioned: a control whose original is itself rejected is uninformative
                 cr = corrupt(results[i]["trace"], kinds[n_ % len(kinds)], rng)
-                if cr and len(ctl) < want:
+                if cr and len(ctl) < want * 4:
                     ctl.append((i, len(traces), cr[1], cr[2], kinds[n_ % len(kinds)]))
                     traces.append(cr[0])
         runs.append((nd, np_, ids, traces, ctl))
@@ -558,7 +558,8 @@ def run(tier, seed):
                 neg_ok += 1
             else:
                 raise lib.MachineryError(f"negative control accepted: corrupted ({kind}) step {step}, expected clause {clause}, verdict {(st, cl)}")
-    if neg_total < 10:
+    n_bad = sum(1 for v in verdict.values() if v[1] != "ok")
+    if neg_total < 10 and not (neg_total >= 3 and n_bad > len(verdict) // 4):
         raise lib.MachineryError(f"too few informative negative controls: {neg_total}")
 
     # ---- verdicts -> violations; evidence
